@@ -270,6 +270,14 @@ func checkBudgets(src, label string, expectA int, allBudgets bool, r *lib.RNG) {
 	}
 	res.Count("budget", src, A >= 2 && free.steps > 10)
 	res.Dist("budget:free-" + kindOf(free))
+	// the whole-VM model (Tengo.Model.VM, theorems vm_*): lock step under no budget, the exact budget, one less, half
+	vmBudgets := []int64{-1, A}
+	if A >= 1 {
+		vmBudgets = append(vmBudgets, A-1, A/2)
+	}
+	if err := lib.VMStream(res, drv, c, src, nil, vmBudgets, func(b int64) interface{} { return in(b) }); err != nil {
+		fatal(err)
+	}
 
 	set := map[int64]bool{0: true, 1: true, A: true, A + 1: true, 2 * A: true, -1: true}
 	if A >= 1 {
